@@ -706,15 +706,28 @@ pub struct EliasFanoBuilder {
     count: usize,
 }
 
+/// Returns the number of lower bits used for a sequence of `n` values
+/// bounded by `u`, that is, ⌊log₂(`u`/`n`)⌋ if `n` ≤ `u`, and 0 otherwise
+/// (an empty sequence is treated as a sequence of one value, so that the
+/// upper bits are always at most 2`n` + 2).
+///
+/// The computation uses only integer arithmetic, so the result is always
+/// smaller than the number of bits of a `usize`, even when `n` is zero or
+/// `u`/`n` is close to the maximum `usize`.
+fn lower_bits(n: usize, u: usize) -> usize {
+    let n = if n == 0 { 1 } else { n };
+    if u < n {
+        0
+    } else {
+        (u / n).ilog2() as usize
+    }
+}
+
 impl EliasFanoBuilder {
     /// Creates a builder for an [`EliasFano`] containing
     /// `n` numbers smaller than or equal to `u`.
     pub fn new(n: usize, u: usize) -> Self {
-        let l = if u >= n {
-            (u as f64 / n as f64).log2().floor() as usize
-        } else {
-            0
-        };
+        let l = lower_bits(n, u);
 
         Self {
             n,
@@ -871,11 +884,7 @@ impl EliasFanoConcurrentBuilder {
     /// Creates a concurrent builder for a sequence containing `n` nonnegative
     /// numbers smaller than or equal to `u`.
     pub fn new(n: usize, u: usize) -> Self {
-        let l = if u >= n {
-            (u as f64 / n as f64).log2().floor() as usize
-        } else {
-            0
-        };
+        let l = lower_bits(n, u);
 
         Self {
             u,
